@@ -8,7 +8,10 @@ checker gate_verdict decides the property on that observation (direct oracle).  
 the extracted gate model, fed with the harness's observation, must predict what the real
 `capy build` executable does (object file / "not compiling" / assert panic), in a default build
 (tracking off) and with --verbose-types (tracking on, assert live); error-free programs are also
-linked and run."""
+linked and run.  Traversal correspondence: for every input the real HIR + type tables + error
+expressions are abstracted into the world of Model/Gate.v (harness/c07/src/hirdump.rs) and the
+extracted `loc_unsafe` is compared, per finished location, with what the real tracking loop of
+InferenceCtx::finish answered (cfg hook hir_ty::verif_take_unsafe_log)."""
 import glob
 import json
 import os
@@ -25,14 +28,14 @@ from ..flow import Flow
 FIELD = re.compile(r"(\w+)=(\S*)")
 
 
-def run_harness(har, text, timeout=120.0):
+def run_harness(har, text, timeout=300.0):
     d = tempfile.mkdtemp(prefix="verif-c07-")
     try:
         with open(os.path.join(d, "main.capy"), "w", encoding="utf-8") as f:
             f.write(text)
         env = dict(os.environ)
         env["RUST_BACKTRACE"] = "0"
-        p = subprocess.Popen([har, "main.capy", C.REPO, "norender"], cwd=d, env=env, stdin=subprocess.DEVNULL,
+        p = subprocess.Popen([har, "main.capy", C.REPO, "norender", "hash", "dump"], cwd=d, env=env, stdin=subprocess.DEVNULL,
                              stdout=subprocess.PIPE, stderr=subprocess.PIPE, start_new_session=True)
         try:
             out, errb = p.communicate(timeout=timeout)
@@ -45,8 +48,10 @@ def run_harness(har, text, timeout=120.0):
             out, errb = p.communicate()
             rc = None
         out = out.decode("utf-8", "replace")
-        res = {"rc": rc, "started_codegen": "@@C07-CODEGEN-START" in out, "fields": None, "raw": ""}
+        res = {"rc": rc, "started_codegen": "@@C07-CODEGEN-START" in out, "fields": None, "raw": "", "hir": None}
         for l in out.split("\n"):
+            if l.startswith("@@C07-HIR "):
+                res["hir"] = l[10:]
             if l.startswith("@@C07 "):
                 res["fields"] = dict(FIELD.findall(l[6:]))
                 res["raw"] = l
@@ -59,14 +64,16 @@ def run_harness(har, text, timeout=120.0):
 
 
 def site_of(p):
-    """'panic:msg@/repo/crates/x/src/y.rs:12' -> 'crates/x/src/y.rs:12'"""
+    """'panic:<msg with _ for blanks>@/repo/crates/x/src/y.rs:12' -> line-independent site key
+    '<file>:<fn>:<kind>:<statement>' (lib/verif/mutate.py site_key)"""
     if "@" not in p:
         return "unknown"
-    loc = p.rsplit("@", 1)[1]
+    head, loc = p.rsplit("@", 1)
+    msg = head.split(":", 1)[1].replace("_", " ") if ":" in head else ""
     m = re.match(r"(.*):(\d+)$", loc)
     if not m:
         return loc or "unknown"
-    return "%s:%s" % (M.norm_site(m.group(1)), m.group(2))
+    return M.site_key(m.group(1), m.group(2), msg)[0]
 
 
 def observe(res):
@@ -148,9 +155,9 @@ def build_inputs(fl, tier):
     inputs = []   # dict(text, origin, kind, desc)
     for f in sorted(glob.glob(os.path.join(C.CORPUS, "C07", "*.capy"))):
         inputs.append({"text": open(f, encoding="utf-8").read(), "origin": "corpus/" + os.path.basename(f), "kind": "corpus"})
-    n_gen = 260 if tier == "quick" else 5000
+    n_gen = 260 if tier == "quick" else 2500
     n_snip = 220 if tier == "quick" else 1200
-    n_sem = 120 if tier == "quick" else 2500
+    n_sem = 120 if tier == "quick" else 1500
     # generated near-valid programs (pairs: valid base + one sabotage)
     g = rng.fork("gen")
     for i in range(n_gen):
@@ -242,23 +249,6 @@ def run(tier, seed):
                     classes[i] = "error-but-safe:" + "+".join(ks[:3])
                 else:
                     classes[i] = "gate-clause-%s" % vd
-        # crash sites are shared with C06: tolerate line shifts (same file, same message, nearby line)
-        known_sites = []
-        for f in C.load_known_findings("C06"):
-            known_sites.append(f)
-            g = dict(f)
-            g["class"] = f.get("class", "").replace("panic:", "noerr-codegen-panic:", 1)
-            known_sites.append(g)
-        own = {f.get("class") for f in v.known}
-        for i, (it, res) in enumerate(zip(inputs, results)):
-            c = classes[i]
-            if c and (c.startswith("panic:") or c.startswith("noerr-codegen-panic:")) and c not in own:
-                f = res["fields"] or {}
-                raw = f.get("infer", "") if c.startswith("panic:") else f.get("cg", "")
-                msg = raw.split(":", 1)[1].rsplit("@", 1)[0].replace("_", " ") if ":" in raw else ""
-                c2 = M.canon_panic_class(known_sites, c, msg)
-                if c2 in own:
-                    classes[i] = c2
         for i, (it, res) in enumerate(zip(inputs, results)):
             hist_out[classes[i] or "property-holds"] = hist_out.get(classes[i] or "property-holds", 0) + 1
             if classes[i]:
@@ -273,11 +263,53 @@ def run(tier, seed):
         v.add_samples([{"origin": it["origin"], "kind": it["kind"], "harness": it["raw"], "verdict": it.get("verdict")}
                        for it in inputs[:2] + inputs[len(inputs) // 2:len(inputs) // 2 + 2]])
 
+        # ---- correspondence: traversal model (Gate.loc_unsafe) vs the real tracking loop -------------------
+        # harness/c07/src/hirdump.rs abstracts the real HIR + type tables + error set into the model's world;
+        # the hook hir_ty::verif_take_unsafe_log gives the real verdict per finished location
+        hl, hidx, unmodelled, dump_failed = [], [], {}, 0
+        for i, res in enumerate(results):
+            h = res.get("hir")
+            if not h:
+                continue
+            if h.startswith("FAILED"):
+                dump_failed += 1
+                continue
+            xs = re.findall(r" ; X (\S+)", h)
+            if xs:
+                for x in xs:
+                    unmodelled[x] = unmodelled.get(x, 0) + 1
+                continue
+            if len(h) > 3000000:
+                continue
+            hl.append("hir " + h)
+            hidx.append(i)
+        mres = C.run_lines([drv], hl, indexed=False)
+        tdiffs, tfirst, nlocs, nunsafe = 0, None, 0, 0
+        if len(mres) != len(hl):
+            fl.broken.append({"what": "traversal stream: model output length mismatch"})
+        else:
+            for i, h, m in zip(hidx, hl, mres):
+                real = dict(x.split("=") for x in h.rsplit(" ; V", 1)[1].split())
+                real = {k: {"0": "safe", "1": "unsafe", "2": "skip"}[v] for k, v in real.items()}
+                model = dict(x.split("=") for x in m.split()) if not m.startswith("!") else {"?": m}
+                nlocs += len(real)
+                nunsafe += sum(1 for v_ in real.values() if v_ == "unsafe")
+                if real != model:
+                    tdiffs += 1
+                    if tfirst is None:
+                        bad = [(k, real.get(k), model.get(k)) for k in sorted(set(real) | set(model)) if real.get(k) != model.get(k)]
+                        tfirst = {"source": inputs[i]["text"], "differing_locations(loc, real, model)": bad[:10],
+                                  "world": h[:3000]}
+            fl.stream("is_safe_to_compile traversal model vs real tracking loop (per finished location)", len(hl), tdiffs, tfirst)
+        v.coverage["traversal"] = {"programs": len(hl), "locations": nlocs, "unsafe_locations": nunsafe,
+                                   "skipped_unmodelled": unmodelled, "dump_failed": dump_failed}
+        v.coverage["evaluations"] += nlocs
+
         # ---- correspondence: gate model vs the real executable ---------------------------------------------
         cand = [i for i in obs_idx if results[i]["fields"] and results[i]["fields"].get("mains") == "1"]
         r2 = fl.rng.fork("e2e")
         r2.shuffle(cand)
-        n_e2e = 70 if tier == "quick" else 600
+        n_e2e = 70 if tier == "quick" else 300
         # prefer a mix: error-free and erroneous, plus every input where something is off
         clean = [i for i in cand if results[i]["fields"]["errs"] == "0"][:n_e2e // 2]
         dirty = [i for i in cand if results[i]["fields"]["errs"] != "0"][:n_e2e // 2]
@@ -343,7 +375,10 @@ def run(tier, seed):
         "(error at any reached sub-expression => never 'safe'; 'unsafe' only at marked nodes), correctness of gate_ok",
         "NOT proved, tested per input: 'no diagnostic => nothing unknown/unsafe' and 'no diagnostic => Cranelift accepts "
         "the program' (hypotheses H2/H3 of C07_gate_meets_spec); errors attributed to expressions the traversal does not reach",
-        "the abstract HIR of Model/Gate.v is tied to the code only through the oracle (no HIR dump is compared)",
+        "the abstract HIR of Model/Gate.v is tied to the code per input: harness/c07/src/hirdump.rs abstracts the real HIR, type "
+        "tables and error set into the model's world, and the extracted loc_unsafe must give the verdict the real tracking loop "
+        "gave for every finished location (hook hir_ty::verif_take_unsafe_log); programs that meet something the model does not "
+        "cover (a location without a type area, an untyped callee / member base) are skipped and counted",
         "in a default build main.rs calls finish(.., track_unsafe_to_compile = false): any_were_unsafe_to_compile is constantly "
         "false and the assert is dead (C07_gate_assert_dead_without_tracking); the harness switches tracking on",
         "in-process harness repeats main.rs's gate (errors => no codegen); the real gate is exercised by the e2e stream",
